@@ -7,9 +7,18 @@ shows on the same lights, controlled by play/stop/pause/resume/advance/step_back
 instants.  In some cases a show effect is made *slow* (it advances the loop clock by 1/64 s) so that step timers run
 late: a schedule accumulated from "now" instead of absolutely then drifts and is caught.
 Model side: MpfVerif.Model.Show.  Timer firings are taken from the run (which `_run_next_step` call came from a timer).
-Oracle (model independent): effect start times follow the absolute schedule, events once, nothing after stop, and at
+Session 3: times are exact rationals (whole numbers of 1/96000 s on both sides; the implementation's floats must be within
+1 us of them), step times 100/125/170/250/330 ms and speeds 3, 0.3, 1.5 besides the dyadic ones, hold steps, start steps from
+the end / 0 / beyond the end, `sync_ms` (dyadic and non-dyadic periods; the play request also exactly on a sync multiple),
+show files written with show tokens (key, value, nested value + time string, two tokens in one string in a list), plays
+with a missing / unknown token.
+Oracle (model independent): effect start times follow the absolute schedule (exactly, in whole units), a synchronised
+start is on the sync grid, not in the past and at most one period away, every start posts `played`, every step has the
+token-substituted lights / colour / fade / step event, events once, nothing after stop, and at
 the end the lights equal those of a twin machine in which no show was ever played.
 """
+from fractions import Fraction
+
 from harness.common import leanproc
 from harness.common.shrink import ddmin
 from harness.common.util import InfraError
@@ -20,71 +29,137 @@ LEAN_MODULES = ["MpfVerif.Props.C17"]
 PROPS_FILE = "MpfVerif/Props/C17.lean"
 GEN = []
 MANIFEST = {
-  "text": "Proof on a Lean model of RunningShow (mpf/assets/show.py) as driven by the show player: for every show (step durations, speed, loop count, start step), every number of loops and every lateness of the loop's timer callbacks, the k-th executed step gets exactly the start time t0 + sum of the preceding executed steps' durations divided by the speed (absolute accumulation, no drift) and the steps follow each other cyclically; for every sequence of play/stop/pause/resume/advance/step_back/update requests and timer firings a show instance posts played exactly once, stopped exactly once iff it ends up stopped, completed at most once and only in the stopping step (clean-up, stopped, the request's own events, completed - in this order), looped exactly once per consumed loop, nothing but pause acknowledgements after stopped; it never has more than one live step timer (the one it can cancel), plays no step and keeps no timer once it is stopped or completed whatever requests arrive later, and has cleared its context in every player it used when it is stopped. The model is tied to the real show player / show controller / RunningShow / light player by a correspondence run on generated shows and control sequences on every check, with a model-independent oracle on effect timestamps, events and a twin machine without shows.",
-  "note": "Trusted: Lean kernel + {propext, Classical.choice, Quot.sound}; the hand-written model Model/Show.lean (validated only by differential runs); float division duration/speed is exact only for the generated dyadic values (others are outside the model); sync_ms, show tokens, show queues/pools, block_queue, replace_or_advance_show's keep-the-old-instance shortcuts and players other than lights/events are outside the model; the clean-up of the light stacks themselves is checked by the oracle (twin machine) and by C09's model, not proved here.",
-  "technique": "Lean 4 theorems (invariants by induction over all request sequences; schedule as a prefix of the absolute schedule for all latenesses) on a hand model + differential correspondence with real shows + schedule/clean-up oracle against a twin machine",
+  "text": "Proof on a Lean model of RunningShow (mpf/assets/show.py) as driven by the show player, with exact rational times (integer numerators over one common denominator; the model never rounds: the driver refuses a unit that is too coarse for a speed, and kth_step_time_exact proves that for any rational speed num/den - 3, 3/10, 3/2 with 100 ms / 330 ms steps included - the k-th scheduled step starts at T with T*num = t0*num + (sum of the preceding durations)*den, the sum taken first and divided once): for every show (step durations incl. hold steps, speed, loop count, start step positive / negative from the end / 0 / beyond the end), every number of loops and every lateness of the loop's timer callbacks, the executed steps are a prefix of the absolute schedule anchored at the play time - or, with sync_ms, at the synchronised start time, which is proved to be a multiple of sync, strictly after the request, at most one period away and the least such multiple, nothing being played before it; for every sequence of play/stop/pause/resume/advance/step_back/update requests and timer firings a show instance posts played at most once (exactly once when it is played without sync_ms, with sync_ms exactly when it was started by its timer or by a request), stopped exactly once iff it ends up stopped, completed at most once and only in the stopping step (clean-up, stopped, the request's own events, completed - in this order), looped exactly once per consumed loop, nothing but pause acknowledgements after stopped; it never has more than one live timer (the one it can cancel), plays no step and keeps no timer once it is stopped or completed whatever requests arrive later, and has cleared its context in every player it used when it is stopped. The model is tied to the real show player / show controller / RunningShow / light player by a correspondence run on generated shows (dyadic and non-dyadic step times and speeds, sync_ms, start steps, hold steps, show files written with show tokens in keys, nested values, lists and time strings) and control sequences on every check, with a model-independent oracle on effect timestamps (exact Fractions, tolerance 1 us), the sync grid, events, token-substituted lights / colours / fades / step events and a twin machine without shows.",
+  "note": "Trusted: Lean kernel + {propext, Classical.choice, Quot.sound}; the hand-written model Model/Show.lean (validated only by differential runs); IEEE floats are outside the model: the implementation's float times are compared with the exact rational ones with a tolerance of 1 us, and a play request that falls (within float error) on a sync multiple is checked by the oracle only (start now or one period later are both accepted); token substitution has no Lean model (oracle only: every step's lights, colours, fade and step event after substitution; a missing token must refuse the play or leave nothing behind); a synchronised play over an instance that still runs (deferred stop of the replaced show), show queues / action queue / block_queue, show pools, replace_or_advance_show's keep-the-old-instance shortcuts and players other than lights/events are outside the model and not exercised; the clean-up of the light stacks themselves is checked by the oracle (twin machine) and by C09's model, not proved here.",
+  "technique": "Lean 4 theorems (invariants by induction over all request sequences; schedule as a prefix of the absolute schedule for all latenesses; exact rational schedule by divisibility; sync start as least multiple) on a hand model + differential correspondence with real shows + schedule/sync/token/clean-up oracle against a twin machine",
   "translated": False,
  }
-RULE = ("a case = 1-2 generated show files (1-4 steps, durations 1-6 ticks of 1/8 s, written as duration / relative time / "
-        "absolute time, steps setting 1-2 lights with optional fade) + play settings (speed 0.5/1/2/4, loops -1/0/1/2, start "
-        "step, start_running, manual_advance, priority) + 3-12 control requests (pause, resume without pause, advance, "
-        "step_back, speed update, stop, re-play) at gaps of 0..28 units of 1/32 s, biased to step boundaries, then stop of "
-        "everything, 2-4 further requests for the stopped shows, and a quiet tail; in 4 of 7 cases the lights have a non-zero "
-        "fade (light fade_ms or light_settings default_fade_ms 125/250/500 ms), two shows use the same lights and their "
-        "stops land inside each other's fade-out windows / at the same instant / at a window's end; afterwards the "
-        "stacks must equal the twin's and a later low-priority fade must produce the twin's hardware fade commands; "
-        "30% of the cases run with slow effects "
+RULE = ("a case = 1-2 generated show files (1-4 steps) + play settings + 3-12 control requests (pause, resume without pause, "
+        "advance, step_back, speed update, stop, re-play) at gaps of 0..28 units of 1/32 s, biased to step boundaries, then stop "
+        "of everything, 2-4 further requests for the stopped shows, and a quiet tail.  45% legacy cases: durations 1-6 ticks "
+        "of 1/8 s written as duration / relative time / absolute time, speed 0.5/1/2/4, loops -1/0/1/2, start step 1..n, "
+        "start_running, manual_advance, priority; in 4 of 7 cases the lights have a non-zero fade (125/250/500 ms), two "
+        "shows use the same lights and their stops land inside each other's fade-out windows; afterwards the stacks must "
+        "equal the twin's and a later low-priority fade must produce the twin's hardware fade commands.  55% extended "
+        "cases: step times 100/125/170/250/330 ms, 20% with a hold step (duration -1), speeds 1/3/0.3/1.5/2/4/0.5 (also "
+        "as update requests), 40% start steps from -1, -n, -n-1, 0, n+1, n+3, sync_ms from 0/125/250/500/1000/330/100, "
+        "45% show files written with show tokens (light list as a key token, colours as value tokens, nested colour + fade "
+        "time string, a step event with two tokens in one string inside a list), request gaps also odd multiples of 1/32 s.  "
+        "A separate stream plays tokenised shows with a missing / an unknown token.  30% of the cases run with slow effects "
         "(late timers).  non-trivial = at least one control request lands while the show runs or the show loops/completes; "
         "distinct = canonical JSON of the case")
 TRUSTED = [
     "modelled, not verified: asyncio call_at / TimerHandle.cancel, the event queue's FIFO order for show events, the show "
-    "loader's duration computation (its result is asserted against the generator's durations), light_player's "
-    "color/remove calls per step",
+    "loader's duration computation (its result is asserted against the generator's durations, tolerance 1e-9 s), light_player's "
+    "color/remove calls per step, show token substitution (checked end-to-end by the oracle only)",
     "Model/Show.lean is hand-written; tied to mpf/assets/show.py, show_controller.py, show_player.py by correspondence on every run",
+    "IEEE doubles: implementation times are accepted within 1 us of the exact rational time (harness units()); the clock at a "
+    "request instant may be up to one clock resolution before the grid instant when non-dyadic timers are pending",
 ]
-ASSUMPTIONS = ["durations and speeds are dyadic so that duration/speed is exact in floats; sync_ms = 0",
+ASSUMPTIONS = ["all durations, sync periods and request instants are whole numbers of 1/96000 s and every duration/speed is too "
+               "(checked by the Lean driver: bad-op otherwise)",
                "a show is (re)played for a key only when the previous instance for that key is stopped or completed "
-               "(replace_or_advance_show's shortcuts for an unchanged running show are not exercised)"]
+               "(replace_or_advance_show's shortcuts for an unchanged running show and the deferred stop of a replaced show "
+               "under sync_ms are not exercised)",
+               "token values contain no parentheses; a play request on an exact sync multiple is compared with the model only "
+               "when clock and period are dyadic"]
 
-UNIT = 1.0 / 64          # model time unit; 1 tick of 1/8 s = 8 units; request gaps are given in 1/32 s
-TPU = 8
+# Times are exact rationals: integer numerators over the common denominator D (units per second).  D is a multiple of 64
+# (request instants and the slow-effect bump are on the 1/64 s grid), of 1000 (durations and sync_ms are whole ms) and of
+# 1000 * lcm(speed numerators) (so that every duration / speed is a whole number of units): the model never rounds.
+D = 96000
+UNIT = 1.0 / 64          # request gaps are given in 1/32 s = 2 * UNIT; a slow effect advances the clock by UNIT
+SLOW = D // 64           # ... in model units
+LATE = 8 * SLOW          # sanity bound on how late a timer callback may run (several slow effects of concurrent shows with
+#                          non-dyadic timers can pile up before the test loop resets its clock); the property is about the
+#                          step's start *time*, which must be the scheduled one however late the callback is, and never early
+TPU = D // 8             # one legacy tick of 1/8 s
+MS = D // 1000
+TOL = Fraction(1, 1000000)   # 1 us: the largest deviation from the exact rational time that is accepted
 LIGHTS = ["l1", "l2"]
 EVS = ["played", "stopped", "looped", "paused", "resumed", "advanced", "stepped_back", "completed"]
 ACTIONS = {"stop": "stop", "pause": "pause", "resume": "resume", "advance": "advance", "back": "step_back"}
-SPEEDS = {"0.5": (1, 2), "1": (1, 1), "2": (2, 1), "4": (4, 1)}
+SPEEDS = {"0.5": (1, 2), "1": (1, 1), "2": (2, 1), "4": (4, 1), "3": (3, 1), "0.3": (3, 10), "1.5": (3, 2)}
+DYADIC_SYNC = (125, 250, 500, 1000)     # ms values for which `t % (sync/1000.0)` is exact on the 1/64 s grid
 
 
 def step_color(show, idx):
     return (10 * (idx + 1) + (0 if show == "A" else 5), 7 * idx + 1, 200 if show == "A" else 100)
 
 
+def durs_ms(spec):
+    """step durations in ms as written in the show file (-1 = hold for ever)"""
+    return list(spec["ms"]) if "ms" in spec else [d * 125 for d in spec["durs"]]
+
+
 def show_yaml(show, spec):
-    """spec: {"durs": [ticks...], "style": duration|rel|abs, "lights": n, "fade": ticks or 0}"""
+    """spec: {"durs": [ticks...] or "ms": [ms...], "style": duration|rel|abs, "lights": n, "fade": ticks or 0, "tok": bool}
+    With "tok" the show file is written with show tokens: the lights as a *key* token `(lt)` (its value may be the list
+    "l1, l2"), the colours as *value* tokens `(c<i>)`, nested one level down together with the fade as a *time string*
+    token `(fd)`, and a step event `s(e)v_(nm)_<i>` as two tokens inside one string inside a list."""
     out = []
     t = 0
-    durs = spec["durs"]
+    durs = durs_ms(spec)
+    tok = spec.get("tok")
     for i, d in enumerate(durs):
         lines = []
         if spec["style"] == "duration":
-            lines.append("duration: %dms" % (d * 125))
+            lines.append("duration: %s" % ("-1" if d < 0 else "%dms" % d))
         elif spec["style"] == "rel":
-            lines.append("time: %s" % ("0" if i == 0 else "+%dms" % (durs[i - 1] * 125)))
+            lines.append("time: %s" % ("0" if i == 0 else "+%dms" % durs[i - 1]))
         else:
-            lines.append("time: %dms" % (t * 125) if i else "time: 0")
+            lines.append("time: %dms" % t if i else "time: 0")
         t += d
         lines.append("lights:")
         c = "%02x%02x%02x" % step_color(show, i)
-        for l in LIGHTS[:spec["lights"]]:
-            lines.append("  %s: %s%s" % (l, c, "-f%dms" % (spec["fade"] * 125) if spec["fade"] else ""))
+        if tok:
+            if spec["fade"] or i % 2:
+                lines.append("  (lt):")
+                lines.append("    color: (c%d)" % i)
+                if spec["fade"]:
+                    lines.append("    fade: (fd)")
+            else:
+                lines.append("  (lt): (c%d)" % i)
+            lines.append("events:")
+            lines.append("  - s(e)v_(nm)_%d" % i)          # two tokens in one key
+        else:
+            for l in LIGHTS[:spec["lights"]]:
+                lines.append("  %s: %s%s" % (l, c, "-f%dms" % (spec["fade"] * 125) if spec["fade"] else ""))
         out.append("- " + lines[0] + "\n" + "".join("  " + x + "\n" for x in lines[1:]))
     return "".join(out)
 
 
+def show_tokens(show, spec, mode=None):
+    """the token values the play entry hands in (mode: None | "missing" | "extra")"""
+    toks = {"lt": ", ".join(LIGHTS[:spec["lights"]]), "nm": show, "e": "e"}
+    for i in range(len(durs_ms(spec))):
+        toks["c%d" % i] = "%02x%02x%02x" % step_color(show, i)
+    if spec["fade"]:
+        toks["fd"] = "%dms" % (spec["fade"] * 125)
+    if mode == "missing":
+        del toks["c0"]
+    elif mode == "extra":
+        toks["nosuchtoken"] = "x"
+    return toks
+
+
 def effective_durs(spec):
-    """what the loader must compute (in ticks): with `time:` styles the last step gets the default of 1 s"""
+    """what the loader must compute (in ms; -1 = hold): with `time:` styles the last step gets the default of 1 s"""
     if spec["style"] == "duration":
-        return list(spec["durs"])
-    return list(spec["durs"][:-1]) + [8]
+        return durs_ms(spec)
+    return durs_ms(spec)[:-1] + [1000]
+
+
+def model_durs(spec):
+    """... in model units (0 = hold)"""
+    return [d * MS if d > 0 else 0 for d in effective_durs(spec)]
+
+
+def first_idx(start, total):
+    """the step a play starts with; None = beyond the end (the code treats it as `at the end of the show`)"""
+    if start > total:
+        return None
+    return start - 1 if start > 0 else start % total if start < 0 else 0
 
 
 def config_yaml(case):
@@ -102,6 +177,12 @@ def config_yaml(case):
             name, name, name, p["speed"], p["loops"], p["start"])
         s += "      start_running: %s\n      manual_advance: %s\n      priority: %d\n" % (
             "true" if p["running"] else "false", "true" if p["manual"] else "false", p["prio"])
+        if p.get("sync"):
+            s += "      sync_ms: %d\n" % p["sync"]
+        if sh["spec"].get("tok"):
+            s += "      show_tokens:\n"
+            for k, v in sorted(show_tokens(name, sh["spec"], sh["spec"].get("tokmode")).items()):
+                s += "        %s: \"%s\"\n" % (k, v)
         for e in EVS:
             s += "      events_when_%s: %s_%s\n" % (e, name, e)
         for a, act in ACTIONS.items():
@@ -114,6 +195,7 @@ def config_yaml(case):
 
 def gen_case(r):
     shows = {}
+    ext = r.random() < 0.55
     # a non-zero light fade: every removal of a show's context then leaves a fade-out entry behind for that long
     light_fade = r.choice([0, 0, 0, 125, 250, 250, 500])
     for name in (["A", "B"] if r.random() < 0.5 or light_fade else ["A"]):
@@ -126,11 +208,23 @@ def gen_case(r):
             spec["lights"] = 2          # both shows on the same lights
         play = {"speed": r.choice(["1", "1", "2", "4", "0.5"]), "loops": r.choice([-1, -1, 0, 1, 2]), "start": r.randint(1, n),
                 "running": r.random() < 0.88, "manual": r.random() < 0.1, "prio": r.choice([0, 1, 1, 5])}
+        if ext:
+            # non-dyadic step times and speeds, hold steps, start steps from the end / beyond the end / 0, sync_ms, tokens
+            spec["ms"] = [r.choice([100, 100, 330, 125, 250, 170]) for _ in range(n)]
+            del spec["durs"]
+            if r.random() < 0.2:
+                spec["ms"][r.choice([n - 1, n - 1, r.randrange(n)])] = -1
+                spec["style"] = "duration"
+            spec["tok"] = r.random() < 0.45
+            play["speed"] = r.choice(["1", "3", "0.3", "1.5", "3", "2", "4", "0.5"])
+            if r.random() < 0.4:
+                play["start"] = r.choice([-1, -1, -n, -n - 1, 0, n + 1, n + 3])
+            play["sync"] = r.choice([0, 0, 0, 125, 250, 500, 1000, 330, 330, 100])
         shows[name] = {"spec": spec, "play": play}
     ops = []
     alive = set()
     for name in shows:
-        ops.append([r.choice([0, 0, 2, 4]), name, "play"])
+        ops.append([r.choice([0, 0, 2, 4, 3, 5] if ext else [0, 0, 2, 4]), name, "play"])
         alive.add(name)
     for _ in range(r.randint(3, 12)):
         name = r.choice(sorted(shows))
@@ -147,7 +241,7 @@ def gen_case(r):
         elif k < 0.75:
             act = "back"
         elif k < 0.87 and not shows[name]["play"]["manual"]:
-            act = "speed" + r.choice(sorted(SPEEDS))
+            act = "speed" + r.choice(sorted(SPEEDS) if ext else ["0.5", "1", "2", "4"])
         else:
             act = "stop"
         if act == "play":
@@ -167,6 +261,15 @@ def gen_case(r):
             "light_fade": light_fade, "fade_style": r.choice(["light", "default"])}
 
 
+def gen_token_refusal(r):
+    """a play whose show_tokens miss a token of the show / carry one the show does not have, then ordinary requests"""
+    case = gen_case(r)
+    for name, sh in case["shows"].items():
+        sh["spec"].update({"tok": True, "tokmode": r.choice(["missing", "extra"])})
+        sh["play"].update({"start": 1, "sync": 0})
+    return case
+
+
 def is_nontrivial(case):
     return any(op[2] not in ("play", "stop") for op in case["ops"][:-3]) or \
         any(sh["play"]["loops"] >= 0 for sh in case["shows"].values())
@@ -176,11 +279,18 @@ def is_nontrivial(case):
 # implementation side
 # ---------------------------------------------------------------------------------------------------------------------
 
+OFFGRID = []
+
+
 def units(t):
-    x = t / UNIT
-    if abs(x - round(x)) > 1e-9:
-        raise InfraError("time off the 1/64 s grid: %r" % t)
-    return int(round(x))
+    """a float clock / start time as a whole number of model units; the exact rational value of the float must be within
+    1 us of it (all exact schedule, sync and request times are whole units) - otherwise the time is recorded as off the
+    exact schedule (an oracle failure, reported by execute_case)"""
+    x = Fraction(t) * D
+    n = round(x)
+    if abs(x - n) > TOL * D:
+        OFFGRID.append(float(t))
+    return int(n)
 
 
 class Run:
@@ -192,12 +302,14 @@ class Run:
         self.ctx_of = {}        # show context ("show_3") -> show name
         self.inst = {}          # show name -> current RunningShow
         self.bumped = True
+        self.refused = []
 
     def install(self):
         from mpf.assets.show import RunningShow
         from mpf.devices.light import Light
         run = self
-        for cls, attr in ((RunningShow, "_run_next_step"), (Light, "color"), (Light, "remove_from_stack_by_key")):
+        for cls, attr in ((RunningShow, "_run_next_step"), (RunningShow, "_start_now"), (Light, "color"),
+                          (Light, "remove_from_stack_by_key")):
             if not hasattr(cls, "_verif17_" + attr):
                 setattr(cls, "_verif17_" + attr, getattr(cls, attr))
 
@@ -213,11 +325,20 @@ class Run:
                     r.bumped = False
             return RunningShow._verif17__run_next_step(show, post_events, pause_after_step)
 
+        def start_now(show):
+            r = RunningShow._verif17_run
+            if r is not None and show.show_config.sync_ms and show._delay_handler is not None:
+                name = show.show.name[2:]
+                if name in r.logs:
+                    # the synchronised start: `_start_now` runs from its timer
+                    r.logs[name].append({"k": "fire", "t": units(r.vm.now()), "start": True})
+            return RunningShow._verif17__start_now(show)
+
         def color(light, color, fade_ms=None, priority=0, key=None, start_time=None):
             r = RunningShow._verif17_run
             if r is not None and key and key.split(".")[0] in r.ctx_of:
                 name = r.ctx_of[key.split(".")[0]]
-                r.logs[name].append({"k": "eff", "light": light.name, "color": tuple(color), "prio": priority,
+                r.logs[name].append({"k": "eff", "light": light.name, "color": tuple(color), "prio": priority, "fade": fade_ms,
                                      "st": units(start_time) if start_time else None, "t": units(r.vm.now())})
                 if r.case["slow"] and not r.bumped and not r.twin:
                     r.bumped = True
@@ -230,6 +351,7 @@ class Run:
                 r.logs[r.ctx_of[str(key).split(".")[0]]].append({"k": "rm", "light": light.name, "t": units(r.vm.now())})
             return Light._verif17_remove_from_stack_by_key(light, key, fade_ms)
         RunningShow._run_next_step = run_next
+        RunningShow._start_now = start_now
         Light.color = color
         Light.remove_from_stack_by_key = remove
         RunningShow._verif17_run = self
@@ -238,12 +360,17 @@ class Run:
                 def h(_n=name, _e=e, **kwargs):
                     run.logs[_n].append({"k": "ev", "e": _e, "t": units(run.vm.now())})
                 self.vm.machine.events.add_handler("%s_%s" % (name, e), h)
+            for i in range(8):
+                def hs(_n=name, _i=i, **kwargs):
+                    run.logs[_n].append({"k": "sev", "i": _i, "t": units(run.vm.now())})
+                self.vm.machine.events.add_handler("sev_%s_%d" % (name, i), hs)
 
     def uninstall(self):
         from mpf.assets.show import RunningShow
         from mpf.devices.light import Light
         RunningShow._verif17_run = None
         RunningShow._run_next_step = RunningShow._verif17__run_next_step
+        RunningShow._start_now = RunningShow._verif17__start_now
         Light.color = Light._verif17_color
         Light.remove_from_stack_by_key = Light._verif17_remove_from_stack_by_key
 
@@ -271,8 +398,8 @@ class Run:
             self.loaded = {}
             for n, sh in case["shows"].items():
                 self.loaded[n] = [st["duration"] for st in m.shows["sh" + n].show_steps]
-                want = [d * 0.125 for d in effective_durs(sh["spec"])]
-                if self.loaded[n] != want:
+                want = [d / 1000.0 if d > 0 else -1 for d in effective_durs(sh["spec"])]
+                if len(self.loaded[n]) != len(want) or any(abs(a - b) > 1e-9 for a, b in zip(self.loaded[n], want)):
                     self.fail.append(("show-durations-parsed-wrong", {"show": n, "loaded": self.loaded[n], "want": want}))
             self.install()
             if case["bg"]:
@@ -287,13 +414,17 @@ class Run:
                     self.fail.append(("crash-in-callback", {"error": repr(e)}))
                 if self.twin:
                     continue
-                self.logs[name].append({"k": "op", "act": act, "t": units(self.vm.now())})
+                self.logs[name].append({"k": "op", "act": act, "t": units(self.vm.now()),
+                                        "exact": (Fraction(self.vm.now()) * D).denominator == 1})
                 try:
                     ev = act.replace(".", "p") + "_" + name
                     self.vm.post(ev)
                     self.vm.advance(0)
                 except Exception as e:  # noqa
-                    self.fail.append(("crash-" + act, {"show": name, "error": repr(e)}))
+                    if act == "play" and case["shows"][name]["spec"].get("tokmode"):
+                        self.refused.append(name)       # a token is missing / unknown: the play request is refused
+                    else:
+                        self.fail.append(("crash-" + act, {"show": name, "error": repr(e)}))
             try:
                 self.vm.advance(case["tail"] * 2 * UNIT)
             except Exception as e:  # noqa
@@ -356,6 +487,8 @@ def obs_of(name, spec, entries):
             sts = {g["st"] for g in grp}
             if len(idxs) != 1 or len(sts) != 1 or sorted(g["light"] for g in grp) != sorted(LIGHTS[:spec["lights"]]):
                 return None
+            if spec["fade"] and {g.get("fade", spec["fade"] * 125) for g in grp} != {spec["fade"] * 125}:
+                return None
             out.append("e%s@%s" % (idxs.pop(), sts.pop()))
         elif e["k"] == "rm":
             while i + 1 < len(entries) and entries[i + 1]["k"] == "rm":
@@ -368,13 +501,13 @@ def obs_of(name, spec, entries):
 
 
 def oracle(run, case):
-    """model-independent checks on the implementation's logs"""
+    """model-independent checks on the implementation's logs (all times in whole units of 1/D s, see `units`)"""
     fails = []
     for name, sh in case["shows"].items():
         spec, play = sh["spec"], sh["play"]
-        durs = [d * TPU for d in effective_durs(spec)]        # model units
+        durs = model_durs(spec)
         total = len(durs)
-        num, den = SPEEDS[play["speed"]]
+        sync = play.get("sync", 0) * MS
         inst = None     # bookkeeping of the current play instance
         for head, entries in segments(run.logs[name]):
             obs = obs_of(name, spec, entries)
@@ -383,22 +516,42 @@ def oracle(run, case):
                 break
             effs = [o for o in obs if o[0] == "e"]
             evs = [o[1:] for o in obs if o[0] == "E"]
+            sevs = [e["i"] for e in entries if e["k"] == "sev"]
             act = head.get("act") if head["k"] == "op" else head["k"]
+            if act == "play" and name in run.refused:
+                if effs or evs:
+                    fails.append(("refused-play-has-effects", {"show": name, "at": head["t"], "obs": obs}))
+                    break
+                continue
             if act == "play":
                 inst = {"count": {e: 0 for e in EVS}, "stopped": False, "prev": None, "speed": SPEEDS[play["speed"]],
-                        "loops": play["loops"], "paused": not play["running"]}
-                num, den = inst["speed"]
+                        "loops": play["loops"], "paused": not play["running"], "pending": bool(sync), "t_play": head["t"],
+                        "played_steps": 0}
             if inst is None:
                 if effs or evs:
                     fails.append(("effect-without-show", {"show": name, "at": head["t"], "obs": obs}))
                 continue
+            # a resume/advance/step_back request for a show that still waits for its synchronised start starts it now
+            by_request = bool(inst["pending"] and act in ("resume", "advance", "back") and not inst["stopped"])
+            starting = bool((act == "play" and not sync) or (act == "fire" and head.get("start")) or by_request)
+            if by_request:
+                inst["pending"] = False
+            if act == "play" and sync and (effs or evs):
+                fails.append(("sync-show-acts-before-its-start", {"show": name, "at": head["t"], "obs": obs}))
+                break
+            if act == "fire" and head.get("start"):
+                if not inst["pending"]:
+                    fails.append(("sync-start-runs-twice-or-after-a-request", {"show": name, "at": head["t"], "obs": obs}))
+                    break
+                inst["pending"] = False
+                inst["paused"] = not play["running"]
             if act and act.startswith("speed") and not inst["stopped"]:
                 inst["speed"] = SPEEDS[act[5:]]
             for e in evs:
                 inst["count"][e] += 1
             if act and act.startswith("speed"):
                 inst["updated"] = True
-            if act == "fire" and play["manual"]:
+            if act == "fire" and not head.get("start") and play["manual"]:
                 # a manual_advance show has no step timer at all: steps run on advance/step_back/resume requests only
                 fails.append(("update-resets-manual-advance" if inst.get("updated") else "manual-show-steps-by-itself",
                               {"show": name, "at": head["t"], "obs": obs}))
@@ -406,8 +559,8 @@ def oracle(run, case):
             if act == "pause":
                 inst["paused"] = True
             elif act in ("resume", "advance", "back"):
-                inst["paused"] = False
-            if act == "fire" and inst["paused"] and effs:
+                inst["paused"] = by_request and not play["running"]
+            if act == "fire" and not head.get("start") and inst["paused"] and effs:
                 fails.append(("step-while-paused", {"show": name, "at": head["t"], "obs": obs}))
                 break
             if inst["stopped"] and (effs or "clr" in obs or [e for e in evs if e not in ("paused",)]):
@@ -416,35 +569,59 @@ def oracle(run, case):
             if len(effs) > 1:
                 fails.append(("two-steps-in-one-run", {"show": name, "at": head["t"], "obs": obs}))
                 break
+            if starting and ("played" in evs) != True:      # noqa: E712
+                fails.append(("start-without-played-event", {"show": name, "at": head["t"], "obs": obs}))
+                break
             if effs:
                 idx, st = [int(x) for x in effs[0][1:].split("@")]
                 tcall = [e["t"] for e in entries if e["k"] == "eff"][0]
-                if act in ("play", "resume", "advance", "back"):
-                    if st != head["t"]:
+                if spec.get("tok") and sevs != [idx]:
+                    fails.append(("step-event-token-wrong", {"show": name, "at": head["t"], "step": idx, "step_events": sevs}))
+                    break
+                beyond = starting and first_idx(play["start"], total) is None
+                if starting and sync and not by_request:
+                    # sync_ms: the start is on the sync grid, not in the past, at most one period after the request,
+                    # and it is the start *time* of the step however late the timer callback runs
+                    if st % sync or not (inst["t_play"] <= st <= inst["t_play"] + sync) or not (st <= tcall <= st + LATE):
+                        fails.append(("sync-start-off-grid", {"show": name, "play_at": inst["t_play"], "start_time": st,
+                                                              "called_at": tcall, "sync_units": sync}))
+                        break
+                if act in ("play", "resume", "advance", "back") or starting:
+                    if st != head["t"] and not (starting and sync and not by_request):
                         fails.append(("step-start-time-not-request-time", {"show": name, "at": head["t"], "obs": obs}))
                         break
                     p = inst["prev"]
                     want_i = None if p is None else (p["idx"] - 1) % total if act == "back" else \
                         (p["idx"] + 1) % total if act in ("resume", "advance") else None
-                    if act == "play":
-                        want_i = play["start"] - 1
+                    if starting:
+                        want_i = 0 if beyond else first_idx(play["start"], total)
                     if want_i is not None and idx != want_i:
                         fails.append(("request-plays-wrong-step", {"show": name, "request": act, "step": idx, "want_step": want_i}))
                         break
                 elif act == "fire":
                     p = inst["prev"]
-                    want_t = p["st"] + durs[p["idx"]] * p["speed"][1] // p["speed"][0]
+                    if p is None or durs[p["idx"]] == 0:
+                        fails.append(("step-timer-without-a-timed-step-before", {"show": name, "at": head["t"], "obs": obs}))
+                        break
+                    # exact rational schedule: previous start + duration / speed (a whole number of units by construction)
+                    q = Fraction(durs[p["idx"]] * p["speed"][1], p["speed"][0])
+                    if q.denominator != 1:
+                        raise InfraError("unit too coarse for %r" % (p,))
+                    want_t = p["st"] + int(q)
                     want_i = (p["idx"] + 1) % total
-                    if (idx, st) != (want_i, want_t) or not (st <= tcall <= st + 1):
+                    if (idx, st) != (want_i, want_t) or not (st <= tcall <= st + LATE):
                         fails.append(("step-off-schedule", {"show": name, "step": idx, "start_time": st, "called_at": tcall,
-                                                            "want_step": want_i, "want_time": want_t, "slow_effects": case["slow"]}))
+                                                            "want_step": want_i, "want_time": want_t, "slow_effects": case["slow"],
+                                                            "units_per_s": D}))
                         break
                 p = inst["prev"]
-                wrapped = p is not None and idx == 0 and p["idx"] == total - 1 and act in ("fire", "advance", "resume")
+                wrapped = (p is not None and idx == 0 and p["idx"] == total - 1 and act in ("fire", "advance", "resume")
+                           and not starting) or beyond
                 if wrapped != ("looped" in evs):
                     fails.append(("looped-event-wrong", {"show": name, "at": head["t"], "obs": obs, "wrapped": wrapped}))
                     break
                 inst["prev"] = {"idx": idx, "st": st, "speed": inst["speed"]}
+                inst["played_steps"] += 1
             if "stopped" in evs:
                 inst["stopped"] = True
             c = inst["count"]
@@ -455,14 +632,19 @@ def oracle(run, case):
             continue        # the walk over this show's log was cut short by the failure above
         if inst is not None and not inst["stopped"]:
             fails.append(("not-stopped-at-end", {"show": name}))
-        elif inst is not None and (inst["count"]["stopped"] != 1 or inst["count"]["played"] != 1):
-            fails.append(("event-count-at-end", {"show": name, "counts": inst["count"]}))
+        elif inst is not None:
+            c = inst["count"]
+            # played exactly once iff the instance ever played a step or completed (a synchronised show that is stopped
+            # before its start never started: no played event)
+            want_played = 1 if (inst["played_steps"] or c["completed"]) else 0
+            if c["stopped"] != 1 or c["played"] != want_played:
+                fails.append(("event-count-at-end", {"show": name, "counts": c}))
     return fails
 
 
 def to_model_lines(name, sh, log):
     spec, play = sh["spec"], sh["play"]
-    durs = [d * TPU for d in effective_durs(spec)]
+    durs = model_durs(spec)
     lines = []
     for head, entries in segments(log):
         obs = obs_of(name, spec, entries)
@@ -475,9 +657,16 @@ def to_model_lines(name, sh, log):
             act = head["act"]
             if act == "play":
                 num, den = SPEEDS[play["speed"]]
-                line = "play %d %d %s %d %d %d %d %s" % (num, den, "inf" if play["loops"] < 0 else play["loops"], play["start"],
-                                                        1 if play["running"] else 0, 1 if play["manual"] else 0, head["t"],
-                                                        " ".join(str(d) for d in durs))
+                sync = play.get("sync", 0)
+                if sync and head["t"] % (sync * MS) == 0 and not (sync in DYADIC_SYNC and head.get("exact")):
+                    # the request is (within float error) on a multiple of the sync period: whether the float
+                    # `t % sync` is 0 or almost `sync` decides between "now" and "one period later" - both satisfy the
+                    # oracle (on the grid, not in the past, at most one period away); the exact model says one period
+                    # later.  Compared only when the float clock and the period are exact (dyadic).
+                    return None
+                line = "play %d %d %s %d %d %d %d %d %s" % (num, den, "inf" if play["loops"] < 0 else play["loops"], play["start"],
+                                                           1 if play["running"] else 0, 1 if play["manual"] else 0, sync * MS,
+                                                           head["t"], " ".join(str(d) for d in durs))
             elif act.startswith("speed"):
                 num, den = SPEEDS[act[5:]]
                 line = "speed %d %d %d" % (num, den, head["t"])
@@ -491,7 +680,13 @@ def model_check(ctx, model, run, case):
     for name, sh in sorted(case["shows"].items()):
         if model.ask("reset") != "ok":
             raise InfraError("model reset failed")
-        for line, obs, head in to_model_lines(name, sh, run.logs[name]):
+        if name in run.refused:
+            continue
+        lines = to_model_lines(name, sh, run.logs[name])
+        if lines is None:
+            ctx.count("sync_float_coincidence_not_compared")
+            continue
+        for line, obs, head in lines:
             what = {"show": name, "at": head["t"], "line": line}
             if line is None:
                 ctx.compare(dict(case, **what), obs, "no request or timer")
@@ -509,13 +704,30 @@ def model_check(ctx, model, run, case):
             ctx.compare(dict(case, show=name, what="stopped flag at the end"), "S" if run.stopped[name] else "R", ans.split()[-1])
 
 
+def probes_agree(a, b):
+    """the later fade: the same hardware fade commands; the colour read back in the middle of the fade may differ by one
+    step of 1/255 (with non-dyadic step times the loop clock at a request instant is up to ~1e-15 s before the grid
+    instant, so the interpolation can fall on the other side of an integer boundary - stated float tolerance)"""
+    for l in LIGHTS:
+        if a[l]["fade_cmd"] != b[l]["fade_cmd"]:
+            return False
+        if any(abs(x - y) > 1 for x, y in zip(a[l]["mid_color"], b[l]["mid_color"])):
+            return False
+        if any(abs(x - y) > 1.0 for x, y in zip(a[l]["mid_hw"], b[l]["mid_hw"])):
+            return False
+    return True
+
+
 def execute_case(case):
+    del OFFGRID[:]
     run = Run(case).execute()
+    if OFFGRID:
+        run.fail.append(("time-off-exact-rational-schedule", {"times": OFFGRID[:5], "tolerance_s": float(TOL)}))
     run.fail += oracle(run, case)
     twin = Run(case, twin=True).execute()
     if {k: v for k, v in run.final.items() if k != "probe"} != {k: v for k, v in twin.final.items() if k != "probe"}:
         run.fail.append(("lights-differ-from-twin-without-show", {"with_show": run.final, "twin": twin.final}))
-    elif run.final != twin.final:
+    elif not probes_agree(run.final["probe"], twin.final["probe"]):
         run.fail.append(("later-fade-differs-from-twin-without-show", {"with_show": run.final["probe"], "twin": twin.final["probe"]}))
     return run
 
@@ -571,15 +783,43 @@ def one_case(ctx, model, case):
             elif e["k"] == "ev":
                 ctx.count("ev_" + e["e"])
     ctx.count("cases_slow_effects" if case["slow"] else "cases_on_time")
+    for name, shw in case["shows"].items():
+        spec, play = shw["spec"], shw["play"]
+        if "ms" in spec:
+            ctx.count("show_non_dyadic_step_times")
+        if spec.get("tok"):
+            ctx.count("show_with_tokens" + ("_" + spec["tokmode"] if spec.get("tokmode") else ""))
+        if -1 in durs_ms(spec):
+            ctx.count("show_with_hold_step")
+        if play.get("sync"):
+            ctx.count("play_sync_ms_dyadic" if play["sync"] in DYADIC_SYNC else "play_sync_ms_non_dyadic")
+        if play["speed"] in ("3", "0.3", "1.5"):
+            ctx.count("play_non_dyadic_speed")
+        if play["start"] <= 0:
+            ctx.count("play_start_step_zero_or_negative")
+        elif play["start"] > len(durs_ms(spec)):
+            ctx.count("play_start_step_beyond_end")
+        if not play["running"]:
+            ctx.count("play_start_running_false")
+    for name in run.refused:
+        ctx.count("play_refused_token")
+    for name in case["shows"]:
+        if any(e.get("start") for e in run.logs[name]):
+            ctx.count("sync_start_timer_ran")
     if run.fail:
         report_failures(ctx, case, run)
     if model is not None:
         model_check(ctx, model, run, case)
 
 
-def sh(durs, style="duration", lights=1, fade=0, speed="1", loops=-1, start=1, running=True, manual=False, prio=1):
-    return {"spec": {"durs": durs, "style": style, "lights": lights, "fade": fade},
-            "play": {"speed": speed, "loops": loops, "start": start, "running": running, "manual": manual, "prio": prio}}
+def sh(durs, style="duration", lights=1, fade=0, speed="1", loops=-1, start=1, running=True, manual=False, prio=1, ms=None,
+       tok=False, sync=0):
+    spec = {"durs": durs, "style": style, "lights": lights, "fade": fade, "tok": tok}
+    if ms:
+        del spec["durs"]
+        spec["ms"] = ms
+    return {"spec": spec, "play": {"speed": speed, "loops": loops, "start": start, "running": running, "manual": manual,
+                                   "prio": prio, "sync": sync}}
 
 
 CORPUS = [
@@ -618,13 +858,41 @@ MANUAL_UPDATE = [
 ]
 
 
+# session 3: sync_ms, tokens, non-dyadic speeds and step times, start steps from the end / beyond the end, hold steps
+CORPUS3 = [
+    # a show waiting for its sync_ms start is advanced / resumed / stepped back before the start (defect found in session 3:
+    # it played steps without ever posting `played`, and a show it replaced was never stopped)
+    {"shows": {"A": sh(None, ms=[100, 330], speed="3", sync=500, tok=True)}, "slow": False, "bg": True, "tail": 64, "keep": 2,
+     "light_fade": 0, "fade_style": "light", "ops": [[3, "A", "play"], [4, "A", "advance"], [40, "A", "stop"], [2, "A", "resume"]]},
+    {"shows": {"A": sh(None, ms=[125, 250, 100], sync=1000, start=-1, running=False)}, "slow": True, "bg": False, "tail": 64, "keep": 2,
+     "light_fade": 0, "fade_style": "light",
+     "ops": [[0, "A", "play"], [2, "A", "pause"], [40, "A", "resume"], [30, "A", "back"], [8, "A", "stop"], [2, "A", "advance"]]},
+    # speed 3 and 0.3 with 100 ms / 330 ms steps over many loops with slow effects: the k-th step is at the exact sum
+    {"shows": {"A": sh(None, ms=[100, 330], speed="3", tok=True, lights=2), "B": sh(None, ms=[330, 100, 170], speed="0.3", prio=5)},
+     "slow": True, "bg": True, "tail": 64, "keep": 3, "light_fade": 0, "fade_style": "light",
+     "ops": [[0, "A", "play"], [3, "B", "play"], [60, "A", "speed1.5"], [120, "A", "stop"], [5, "B", "stop"], [2, "A", "pause"]]},
+    # the play request exactly on a sync multiple (dyadic, exact clock): one full period is waited
+    {"shows": {"A": sh([2, 2], sync=500)}, "slow": False, "bg": False, "tail": 64, "keep": 2, "light_fade": 0, "fade_style": "light",
+     "ops": [[0, "A", "play"], [40, "A", "stop"], [2, "A", "resume"]]},
+    # start_step beyond the end (a loop is consumed at once / the show completes at once), hold step, start_step 0
+    {"shows": {"A": sh(None, ms=[100, -1], start=5, loops=1), "B": sh(None, ms=[125, 125], start=4, loops=0, prio=5)}, "slow": False,
+     "bg": True, "tail": 64, "keep": 3, "light_fade": 0, "fade_style": "light",
+     "ops": [[0, "A", "play"], [0, "B", "play"], [12, "A", "advance"], [12, "A", "advance"], [20, "A", "stop"], [0, "B", "stop"],
+             [2, "A", "back"]]},
+]
+
+
 def run(ctx):
     model = None if getattr(ctx, "model_unavailable", False) else leanproc.LeanProc(ID)
+    ctx.notes["time_units_per_second"] = D
+    ctx.notes["time_tolerance_seconds"] = float(TOL)
     try:
-        for case in CORPUS:
+        for case in CORPUS + CORPUS3:
             one_case(ctx, model, case)
         for case in MANUAL_UPDATE:
             one_case(ctx, None, case)
+        for i in range(ctx.n(40, 300)):
+            one_case(ctx, None, gen_token_refusal(ctx.rng("tokens", i)))
         for i in range(ctx.n(450, 4000)):
             one_case(ctx, model, gen_case(ctx.rng("case", i)))
     finally:
